@@ -22,23 +22,23 @@ Theorem div_always_float : forall a b r, is_num a = true -> is_num b = true ->
 Proof. exact SemProofs.div_always_float. Qed.
 Theorem falsy_only_null_false : forall v, truthy v = false <-> (v = VNull \/ v = VBool false).
 Proof. exact SemProofs.falsy_only_null_false. Qed.
-Theorem and_short_circuits : forall f cenv e s a b v e1 s1,
-  eval f cenv e s a = (RVal v, e1, s1) -> truthy v = false ->
-  eval (S f) cenv e s (EAnd a b) = (RVal v, e1, s1).
+Theorem and_short_circuits : forall f cenv yt e s a b v e1 s1,
+  eval f cenv yt e s a = (RVal v, e1, s1) -> truthy v = false ->
+  eval (S f) cenv yt e s (EAnd a b) = (RVal v, e1, s1).
 Proof. exact SemProofs.and_short_circuits. Qed.
-Theorem or_short_circuits : forall f cenv e s a b v e1 s1,
-  eval f cenv e s a = (RVal v, e1, s1) -> truthy v = true ->
-  eval (S f) cenv e s (EOr a b) = (RVal v, e1, s1).
+Theorem or_short_circuits : forall f cenv yt e s a b v e1 s1,
+  eval f cenv yt e s a = (RVal v, e1, s1) -> truthy v = true ->
+  eval (S f) cenv yt e s (EOr a b) = (RVal v, e1, s1).
 Proof. exact SemProofs.or_short_circuits. Qed.
-Theorem chain_stops_at_false : forall f cenv e s a op b rest va e1 s1 vb e2 s2,
-  eval f cenv e s a = (RVal va, e1, s1) ->
-  eval f cenv e1 s1 b = (RVal vb, e2, s2) ->
+Theorem chain_stops_at_false : forall f cenv yt e s a op b rest va e1 s1 vb e2 s2,
+  eval f cenv yt e s a = (RVal va, e1, s1) ->
+  eval f cenv yt e1 s1 b = (RVal vb, e2, s2) ->
   compare_op op DEPTH s2 va vb = RVal (VBool false) ->
-  eval (S f) cenv e s (ECmp a ((op, b) :: rest)) = (RVal (VBool false), e2, s2).
+  eval (S f) cenv yt e s (ECmp a ((op, b) :: rest)) = (RVal (VBool false), e2, s2).
 Proof. exact SemProofs.chain_stops_at_false. Qed.
-Theorem if_without_else_is_null : forall f cenv e s c b v e1 s1,
-  eval f cenv e s c = (RVal v, e1, s1) -> truthy v = false ->
-  eval (S f) cenv e s (EIf [(c, b)] None) = (RVal VNull, e1, s1).
+Theorem if_without_else_is_null : forall f cenv yt e s c b v e1 s1,
+  eval f cenv yt e s c = (RVal v, e1, s1) -> truthy v = false ->
+  eval (S f) cenv yt e s (EIf [(c, b)] None) = (RVal VNull, e1, s1).
 Proof. exact SemProofs.if_without_else_is_null. Qed.
 
 Print Assumptions int_add_wraps.
